@@ -157,6 +157,46 @@ def loaded_statistics(run, tier, rng):
                     if got.shape != want.shape or not np.allclose(got, want, rtol=1e-6, atol=1e-6):
                         run.violation({"kind": "apply_differs_from_statistics_given", "target": fn, "constant_coefficient": const, "n_vectors": n,
                                        "what": "statistics loaded from a file"})
+        # statistics somebody else wrote in single precision (raw 2 x (D+1) matrix: sums and count, sums of squares): the
+        # numbers given are what counts, and everything derived from them is computed in double precision - also after
+        # more data was accumulated on top
+        # (an even number of coefficients: with an odd one the byte count is also that of a smaller double-precision matrix, and
+        # which of the two a file is then is a documented guess)
+        for D in (2, 4, 6):
+            for n in (8, 50):
+                data = np.round(nprng.randn(n, D) * 2) + 1000.0 + np.arange(D)  # (sums and sums of squares exact in float32)
+                stats = np.zeros((2, D + 1), dtype=np.float64)
+                stats[0, :D], stats[0, D], stats[1, :D] = data.sum(0), n, (data ** 2).sum(0)
+                given = stats.astype(np.float32).astype(np.float64)  # (the numbers in the file, whatever rounding they went through)
+                k += 1
+                path = os.path.join(tmp, "%d_f32.bin" % k)
+                stats.astype(np.float32).tofile(path)
+                more = nprng.randn(5, D) * 3 + 990.0
+                probe = nprng.randn(3, D) * 2 + 1000.0
+                run.evaluations += 1
+                try:
+                    with warnings.catch_warnings():
+                        warnings.simplefilter("ignore")
+                        t = post.Standardize(path, force_as="file")
+                        got = [t.apply(probe)]
+                        t.accumulate(more)
+                        got.append(t.apply(probe))
+                except Exception as e:
+                    run.violation({"kind": "loaded_statistics_unusable", "target": "raw float32", "num_coeffs": D, "n_vectors": n, "error": repr(e)})
+                    continue
+                after = given.copy()
+                after[0, :D] += more.sum(0)
+                after[0, D] += len(more)
+                after[1, :D] += (more ** 2).sum(0)
+                for step, (g, st_) in enumerate(zip(got, (given, after))):
+                    mean = st_[0, :D] / st_[0, D]
+                    var = st_[1, :D] / st_[0, D] - mean ** 2
+                    want = (probe - mean) / np.sqrt(np.where(np.isclose(var, 0), 1.0, var))
+                    if g.shape != want.shape or g.dtype != np.float64 or not np.allclose(g, want, rtol=1e-6, atol=1e-6):
+                        run.violation({"kind": "apply_differs_from_statistics_given", "target": "raw float32", "num_coeffs": D, "n_vectors": n,
+                                       "what": "statistics loaded from a single-precision file" + (", then more data accumulated" if step else ""),
+                                       "max_abs_error": float(np.max(np.abs(g - want))) if g.shape == want.shape else None})
+                        break
     finally:
         shutil.rmtree(tmp, ignore_errors=True)
 
